@@ -379,6 +379,7 @@ DupNames == {"d", "e"}
 \* denote the same file)
 OutSpell == {Path(pre, P(nm)) : pre \in (IF Quick THEN {"", "zz/../", "zz\\..\\"} ELSE Prefixes), nm \in DupNames}
             \cup {Path(pre, P("/q")) : pre \in {"", "/", "/zz/.."}}
+RepSpell == {Path("", P("rep")), Path("zz/../", P("rep"))}
 OutLists == UNION {[1..n -> OutSpell] : n \in 1..(IF Quick THEN 3 ELSE 4)}
 
 DupOne(outs, k) ==      \* one statement, the first k outputs explicit, the rest implicit
@@ -413,6 +414,12 @@ DupInputs ==
                                              w \in {"main", "include", "subninja", "include-first"}}
   \cup {<<DupTwo(<<a, a2>>, <<b>>, w), PlainC>> : a \in OutSpell, a2 \in OutSpell, b \in OutSpell,
                                                   w \in {"main"}}
+  \* a statement that repeats one of its own outputs and, after the repeat, names a file another
+  \* statement produces (either statement first)
+  \cup {<<DupTwo(<<a>>, <<r, r2, b>>, w), PlainC>> : a \in OutSpell, b \in OutSpell, r \in RepSpell, r2 \in RepSpell,
+                                                    w \in {"main", "include"}}
+  \cup {<<DupTwo(<<r, r2, a>>, <<b>>, w), PlainC>> : a \in OutSpell, b \in OutSpell, r \in RepSpell, r2 \in RepSpell,
+                                                    w \in {"main", "subninja"}}
 
 Inputs ==
   CASE Family = "shape" -> ShapeInputs
